@@ -111,7 +111,14 @@ func VerifC18_RefCount() {
 	var m int
 	if rt.Bool("bystander-resource") {
 		nOther = 1
-		r, err := f.Resource("v1", "configmaps")
+		// another resource - or the SAME resource at its other served version,
+		// which is a subscription (LIST/WATCH, cache, count) of its own
+		otherAPIVersion, otherResource := "v1", "configmaps"
+		if rt.Bool("bystander-is-the-same-resource-at-another-version") {
+			rt.Cover("bystander-other-version")
+			otherAPIVersion, otherResource = "ex.com/v2", "things"
+		}
+		r, err := f.Resource(otherAPIVersion, otherResource)
 		verifAssert(err == nil, "bystander/error")
 		if err != nil || r == nil {
 			return
